@@ -5,6 +5,7 @@
 -/
 import Csvq.Model.Rel
 import Csvq.Model.Lateral
+import Csvq.Model.RelNames
 namespace Csvq.Rel
 open Csvq
 
